@@ -97,9 +97,9 @@ Record FRel (p : fpend) (st : wstate) (m : m14) : Prop := {
   f_dropcmd : forall t q, tcur (thr st t) = Some (CPDrop q) -> p <> FDropBad t q ->
               (exists m0, In (ILock m0 (LPqCancelSet q)) (tcont (thr st t))) \/ pcancel (pps st q) = true;
   f_own_cs : forall t m0 q, In (ILock m0 (LPqCancelSet q)) (tcont (thr st t)) -> tcur (thr st t) = Some (CPDrop q);
+  f_late_cur : forall t, is_late m t -> exists c, tcur (thr st t) = Some c /\ wcmd c;
   f_own_ret : forall t m0 v, In (IUnlock m0 (URet v)) (tcont (thr st t)) ->
-              exists c, tcur (thr st t) = Some c /\ (wcmd c \/ (exists a b, c = CSend a b) \/ (exists a, c = CClosed a)) /\
-                        (forall z, v = RVal z -> c = CRecv /\ wkr st t);
+              (forall q x, tcur (thr st t) <> Some (CPSend q x)) /\ (forall z, v = RVal z -> tcur (thr st t) = Some CRecv /\ wkr st t);
   f_own_pr : forall t i, In i (tcont (thr st t)) ->
              (forall m0 q, i = ILock m0 (LPqRecv q) \/ i = ICvReacq q -> wkr st t /\ tcur (thr st t) = Some CRecv /\ q = tpipe (thr st t)) /\
              (forall m0 q, i = ILock m0 (LPqCancelGet q) -> wkr st t /\ tcur (thr st t) = Some CCancel /\ q = tpipe (thr st t));
@@ -149,6 +149,7 @@ Proof.
   - apply (f_sendret _ _ _ R).
   - apply (f_dropcmd _ _ _ R).
   - apply (f_own_cs _ _ _ R).
+  - intros t L. apply La in L. apply (f_late_cur _ _ _ R t L).
   - apply (f_own_ret _ _ _ R).
   - apply (f_own_pr _ _ _ R).
   - apply (f_pr _ _ _ R).
@@ -251,3 +252,97 @@ Proof.
   - inversion H; subst; clear H. fe (@nil instr).
   - inversion H; subst; clear H. fe (@nil instr).
 Qed.
+
+Lemma spend_app : forall q a b, spend q (a ++ b) = spend q a ++ spend q b.
+Proof. intros. unfold spend. apply flat_map_app. Qed.
+Lemma rvals_app : forall a b, rvals (a ++ b) = rvals a ++ rvals b.
+Proof. intros. unfold rvals. apply flat_map_app. Qed.
+Lemma prcount_app : forall a b, prcount (a ++ b) = (prcount a + prcount b)%nat.
+Proof. intros. unfold prcount. rewrite filter_app, app_length. reflexivity. Qed.
+
+(** ** the generic step of this half: thread [t] replaces the head [i] of its continuation by [new]; what concerns
+    thread [t] itself and the pipe [p0] it works on is supplied by the caller *)
+Section FStep.
+  Variables (p : fpend) (st st' : wstate) (m m' : m14) (t : tid) (i : instr) (r new : list instr) (p0 : Z).
+  Hypothesis R : FRel p st m.
+  Hypothesis Sm : f14_same m m'.
+  Hypothesis F : tframe st st' t.
+  Hypothesis Hc : tcont (thr st t) = i :: r.
+  Hypothesis Hc' : tcont (thr st' t) = new ++ r.
+  Hypothesis Hpp : forall q, phandle (pps st' q) = phandle (pps st q) /\ pexists (pps st' q) = pexists (pps st q) /\
+                             (q <> p0 -> psendq (pps st' q) = psendq (pps st q) /\ pcancel (pps st' q) = pcancel (pps st q)).
+  Hypothesis Hp0 : (psendq (pps st' p0) = psendq (pps st p0) /\ pcancel (pps st' p0) = pcancel (pps st p0) /\
+                    spend p0 (mcont st') = spend p0 (mcont st)) \/ pexists (pps st p0) = true.
+  Hypothesis Hcan : pcancel (pps st p0) = true -> pcancel (pps st' p0) = true.
+  Hypothesis Htr : forall u, u <> t -> tret (thr st' u) = tret (thr st u).
+  Hypothesis Hw : wkr st t -> tpipe (thr st t) = p0.
+  Hypothesis Hsp : forall q, q <> p0 -> spend q (mcont st') = spend q (mcont st).
+  (* obligations about the pipe [p0] and the thread [t] *)
+  Hypothesis O_ps : forall u, wkr st u -> tpipe (thr st u) = p0 ->
+    on_pipe p0 (dps p m') = on_pipe p0 (m14_recvd m') ++ rtransit (thr st' u) ++ psendq (pps st' p0) ++ spend p0 (mcont st').
+  Hypothesis O_ok : forall c, wkr st t -> is_late m' t -> tcur (thr st' t) = Some c ->
+    okret c (tret (thr st' t)) /\ forall m0 v, In (IUnlock m0 (URet v)) (tcont (thr st' t)) -> okret c v.
+  Hypothesis O_own_send : forall m0 q x, In (ILock m0 (LPqSend q x)) (tcont (thr st' t)) -> t = main /\ tcur (thr st' t) = Some (CPSend q x).
+  Hypothesis O_sendret : forall q x, tcur (thr st' t) = Some (CPSend q x) -> tret (thr st' t) = RUnit.
+  Hypothesis O_dropcmd : forall q, tcur (thr st' t) = Some (CPDrop q) ->
+    (exists m0, In (ILock m0 (LPqCancelSet q)) (tcont (thr st' t))) \/ pcancel (pps st' q) = true.
+  Hypothesis O_own_cs : forall m0 q, In (ILock m0 (LPqCancelSet q)) (tcont (thr st' t)) -> tcur (thr st' t) = Some (CPDrop q).
+  Hypothesis O_own_ret : forall m0 v, In (IUnlock m0 (URet v)) (tcont (thr st' t)) ->
+    (forall q x, tcur (thr st' t) <> Some (CPSend q x)) /\ (forall z, v = RVal z -> tcur (thr st' t) = Some CRecv /\ wkr st' t).
+  Hypothesis O_own_pr : forall j, In j (tcont (thr st' t)) ->
+    (forall m0 q, j = ILock m0 (LPqRecv q) \/ j = ICvReacq q -> wkr st' t /\ tcur (thr st' t) = Some CRecv /\ q = tpipe (thr st' t)) /\
+    (forall m0 q, j = ILock m0 (LPqCancelGet q) -> wkr st' t /\ tcur (thr st' t) = Some CCancel /\ q = tpipe (thr st' t)).
+  Hypothesis O_pr : forall c, tcur (thr st' t) = Some c -> wcmd c ->
+    (prcount (tcont (thr st' t)) <= 1)%nat /\ ((1 <= prcount (tcont (thr st' t)))%nat -> tret (thr st' t) = RUnit).
+
+  Let Hn : nthr st' = nthr st := proj1 F.
+  Let Hf := proj1 (proj2 F).
+  Let Ho := proj2 (proj2 F).
+
+  Lemma fs_fields : (forall u, tpipe (thr st' u) = tpipe (thr st u)) /\ (forall u, tcur (thr st' u) = tcur (thr st u)).
+  Proof. split; intro u; destruct (Hf u) as [A [B [C [D E]]]]; auto. Qed.
+  Lemma fs_wkr : forall u, wkr st' u <-> wkr st u.
+  Proof. intro u. unfold wkr. rewrite Hn. destruct fs_fields as [A _]. rewrite A. tauto. Qed.
+
+  Lemma f_step : FRel p st' m'.
+  Proof.
+    destruct Sm as [M1 M2 M3 M4]. destruct fs_fields as [Tp Cu].
+    assert (Dp : dps p m' = dps p m) by (unfold dps; rewrite M1; reflexivity).
+    assert (La : forall u, is_late m' u <-> is_late m u) by (intro u; unfold is_late; rewrite M4; tauto).
+    assert (Co : forall u, u <> t -> tcont (thr st' u) = tcont (thr st u)) by exact Ho.
+    assert (Ph : forall q, phandle (pps st' q) = phandle (pps st q)) by (intro q; apply Hpp).
+    assert (Pe : forall q, pexists (pps st' q) = pexists (pps st q)) by (intro q; apply Hpp).
+    assert (Pn : forall q, pexists (pps st q) = false -> psendq (pps st' q) = psendq (pps st q) /\ pcancel (pps st' q) = pcancel (pps st q) /\
+                            spend q (mcont st') = spend q (mcont st)).
+    { intros q Hq. destruct (Z.eq_dec q p0) as [->|Nq].
+      - destruct Hp0 as [A|A]; [exact A|rewrite A in Hq; discriminate Hq].
+      - destruct (Hpp q) as [_ [_ A]]. destruct (A Nq) as [A1 A2]. split; [exact A1|]. split; [exact A2|apply Hsp; exact Nq]. }
+    assert (Pc : forall q, pcancel (pps st q) = true -> pcancel (pps st' q) = true).
+    { intros q Hq. destruct (Z.eq_dec q p0) as [->|Nq]; [apply Hcan; exact Hq|]. destruct (Hpp q) as [_ [_ A]]. rewrite (proj2 (A Nq)). exact Hq. }
+    assert (Rt : forall u, u <> t -> rtransit (thr st' u) = rtransit (thr st u)).
+    { intros u Hu. unfold rtransit. rewrite (Co u Hu), Cu, (Htr u Hu). reflexivity. }
+    assert (Pnd : forall u, u <> t -> tcont (thr st u) = [] -> tcont (thr st' u) = []) by (intros u Hu E; rewrite (Co u Hu); exact E).
+    assert (Tne : forall u, tcont (thr st u) = [] -> u <> t) by (intros u E ->; rewrite Hc in E; discriminate E).
+    constructor.
+    - intros u q x E. destruct (f_psend _ _ _ R u q x E) as [A [B C]]. rewrite Cu, M1. split; [exact A|]. split; [apply Pnd; [apply Tne; exact B|exact B]|exact C].
+    - intros u q E. destruct (f_pdrop _ _ _ R u q E) as [A B]. rewrite Cu. split; [exact A|apply Pnd; [apply Tne; exact B|exact B]].
+    - intros q. rewrite Pe. intro Hq. destruct (Pn q Hq) as [A [B C]]. rewrite Dp, M2, M3, A, B, C, Ph. apply (f_noex _ _ _ R q Hq).
+    - intros q. rewrite M3. intro H. apply Pc. apply (f_drop _ _ _ R q H).
+    - intros u W L. apply fs_wkr in W. apply La in L. rewrite Tp. apply Pc. apply (f_late _ _ _ R u W L).
+    - intros u c W L Hcu. destruct (Nat.eq_dec u t) as [->|Hu]; [apply (O_ok c); [apply fs_wkr; exact W|exact L|exact Hcu]|].
+      apply fs_wkr in W. apply La in L. rewrite Cu in Hcu. rewrite (Htr u Hu), (Co u Hu). apply (f_ok _ _ _ R u c W L Hcu).
+    - intros u W. cbn zeta. apply fs_wkr in W. rewrite Tp. destruct (Z.eq_dec (tpipe (thr st u)) p0) as [E|E].
+      + rewrite E. apply (O_ps u W E).
+      + assert (Hu : u <> t) by (intro X; subst u; apply E; apply Hw; exact W).
+        destruct (Hpp (tpipe (thr st u))) as [_ [_ A]]. destruct (A E) as [A1 _]. rewrite Dp, M2, (Rt u Hu), A1, (Hsp _ E). apply (f_ps _ _ _ R u W).
+    - intros u m0 q x Hin. destruct (Nat.eq_dec u t) as [->|Hu]; [apply (O_own_send m0 q x Hin)|]. rewrite (Co u Hu) in Hin. rewrite Cu. apply (f_own_send _ _ _ R u m0 q x Hin).
+    - intros u q x Hcu. destruct (Nat.eq_dec u t) as [->|Hu]; [apply (O_sendret q x Hcu)|]. rewrite Cu in Hcu. rewrite (Htr u Hu). apply (f_sendret _ _ _ R u q x Hcu).
+    - intros u q Hcu Np. destruct (Nat.eq_dec u t) as [->|Hu]; [apply (O_dropcmd q Hcu)|]. rewrite Cu in Hcu. rewrite (Co u Hu).
+      destruct (f_dropcmd _ _ _ R u q Hcu Np) as [A|A]; [left; exact A|right; apply Pc; exact A].
+    - intros u m0 q Hin. destruct (Nat.eq_dec u t) as [->|Hu]; [apply (O_own_cs m0 q Hin)|]. rewrite (Co u Hu) in Hin. rewrite Cu. apply (f_own_cs _ _ _ R u m0 q Hin).
+    - intros u L. apply La in L. rewrite Cu. apply (f_late_cur _ _ _ R u L).
+    - intros u m0 v Hin. destruct (Nat.eq_dec u t) as [->|Hu]; [apply (O_own_ret m0 v Hin)|]. rewrite (Co u Hu) in Hin. rewrite Cu. destruct (f_own_ret _ _ _ R u m0 v Hin) as [A B]. split; [exact A|]. intros z Ez. destruct (B z Ez) as [B1 B2]. split; [exact B1|apply fs_wkr; exact B2].
+    - intros u j Hin. destruct (Nat.eq_dec u t) as [->|Hu]; [apply (O_own_pr j Hin)|]. rewrite (Co u Hu) in Hin. rewrite Cu, Tp. destruct (f_own_pr _ _ _ R u j Hin) as [A B]. split; [intros m0 q E; destruct (A m0 q E) as [A1 A2]; split; [apply fs_wkr; exact A1|exact A2]|intros m0 q E; destruct (B m0 q E) as [B1 B2]; split; [apply fs_wkr; exact B1|exact B2]].
+    - intros u c Hcu Wc. destruct (Nat.eq_dec u t) as [->|Hu]; [apply (O_pr c Hcu Wc)|]. rewrite Cu in Hcu. rewrite (Co u Hu), (Htr u Hu). apply (f_pr _ _ _ R u c Hcu Wc).
+  Qed.
+End FStep.
